@@ -135,6 +135,56 @@ def r11_3(ctx: Ctx, rep: Report) -> None:  # noqa: C901
                 rep.ok(f"Acl.shading: {sname} initialised once", "before the loop over tops", where=where(f, inits[0].ast))
 
 
+def r11_5(ctx: Ctx, rep: Report) -> None:
+    """Every (top, bottom) pair is examined: the loops of Acl.shading are left only by exhaustion and no candidate
+    is skipped before the shadow_of test."""
+    rep.rule("R11.5")
+    sf = analyse_shading(ctx)
+    f, cfg = sf.f, sf.cfg
+    if sf.probe is None or sf.outer is None or sf.inner is None:
+        return
+    for loop, what in ((sf.outer, "tops"), (sf.inner, "candidates")):
+        if loop is sf.outer and sf.inner is sf.outer and what == "candidates":
+            continue
+        rep.instance()
+        body = [s for lab, s in loop.succ if lab == "body"]
+        if not body:
+            continue
+        # nodes of one iteration: reachable from the body start without passing the loop head again
+        region = cfg.reachable(body[0], avoid=lambda n, loop=loop: n is loop, labels_avoid=("exc",))
+        region = {n for n in region if loop in cfg.reachable(n, labels_avoid=("exc",))}
+        region.add(body[0])
+        leaks = []
+        for n in region:
+            if n is loop:
+                continue
+            for lab, s in n.succ:
+                if lab == "exc":
+                    continue
+                if s not in region and s is not loop and s is not cfg.raise_exit:
+                    leaks.append((n, lab, s))
+        if leaks:
+            n, lab, s = leaks[0]
+            rep.violation("Acl.shading", f"{snippet(n.ast) if n.ast is not None else n.kind} leaves the loop over {what}", f"the loop over {what} can be left before it is exhausted: later entries are never compared, so shadowed entries are missing from the report", where(f, n.ast), inp="an ACL with shadowed entries near the top and an independent shading pair near the end (A, a1, B, b1)")
+        else:
+            rep.ok(f"Acl.shading: loop over {what}", "left only by exhaustion (no break/return inside)", where=where(f, loop.ast))
+    # no candidate is skipped: every path through the inner body reaches the probe
+    rep.instance()
+    inner_body = [s for lab, s in sf.inner.succ if lab == "body"]
+    if inner_body and inner_body[0] is not sf.probe and not cfg.all_paths_pass(inner_body[0], sf.inner, lambda n: n is sf.probe, labels_avoid=("exc",)):
+        rep.violation("Acl.shading", "candidate skipped before the shadow_of test", "some candidate below the top is passed over without being tested", where(f, sf.inner.ast))
+    else:
+        rep.ok("Acl.shading: inner loop", "every candidate reaches the shadow_of test", where=where(f, sf.inner.ast))
+    # every top reaches its candidates
+    if sf.outer is not sf.inner:
+        rep.instance()
+        ob = [s for lab, s in sf.outer.succ if lab == "body"]
+        if ob and ob[0] is not sf.inner and not cfg.all_paths_pass(ob[0], sf.outer, lambda n: n is sf.inner, labels_avoid=("exc",)):
+            rep.violation("Acl.shading", "top skipped", "some top entry is passed over without its candidates being examined", where(f, sf.outer.ast))
+        else:
+            rep.ok("Acl.shading: outer loop", "every top reaches the loop over its candidates", where=where(f, sf.outer.ast))
+
+
 def r11_4(ctx: Ctx, rep: Report, helpers: Dict[str, Optional[Func]]) -> None:
     rep.rule("R11.4")
     for fld in ("_srcaddr", "_dstaddr"):
@@ -192,3 +242,4 @@ def run(ctx: Ctx, rep: Report, tier: str) -> None:
     rep.rule("R11.3b")
     check_strictly_above(ctx, rep, analyse_shading(ctx))
     r11_4(ctx, rep, helpers)
+    r11_5(ctx, rep)
